@@ -3,7 +3,7 @@
 // answered with the prescribed connection error"; RFC 9000 12.4 table 3 / 12.5: a frame that is not permitted in the
 // packet type it arrived in is a PROTOCOL_VIOLATION).  quic/s2n-quic-transport/src/space/mod.rs: trait PacketSpace gives
 // every frame handler a DEFAULT body; InitialSpace and HandshakeSpace override only handle_{crypto,ack,connection_close}_frame,
-// so for them the default bodies ARE the gate.  Each default body (result expression) is extracted verbatim:
+// so for them the default bodies ARE the gate.  Each default body is extracted verbatim and whole (body=1):
 // it must be `Err` with code PROTOCOL_VIOLATION (0x0a), for every frame value.
 // Also checked on every run (syntactic obligation, reported as UNDECIDED "contract needed" if it fails, never as a
 // violation): space/initial.rs and space/handshake.rs define none of the gated handlers themselves.
@@ -16,6 +16,11 @@ pub struct FrameTypeX { pub v: u64 }
 pub struct FrameTagX { pub v: u8 }
 impl FrameTagX { pub fn into(self) -> (r: FrameTypeX) { FrameTypeX { v: self.v as u64 } } }
 impl TransportError {
+    pub const NO_ERROR: TransportError = TransportError { code: 0x0 };
+    pub const INTERNAL_ERROR: TransportError = TransportError { code: 0x1 };
+    pub const FLOW_CONTROL_ERROR: TransportError = TransportError { code: 0x3 };
+    pub const STREAM_STATE_ERROR: TransportError = TransportError { code: 0x5 };
+    pub const FRAME_ENCODING_ERROR: TransportError = TransportError { code: 0x7 };
     pub const PROTOCOL_VIOLATION: TransportError = TransportError { code: 0xA };
     pub fn with_reason(self, reason: &'static str) -> (r: TransportError) ensures r == self { self }
     pub fn with_frame_type(self, t: FrameTypeX) -> (r: TransportError) ensures r == self { self }
@@ -29,49 +34,49 @@ impl DcFrameX { pub fn tag(&self) -> (r: FrameTypeX) { FrameTypeX { v: self.t } 
 fn default_handle_handshake_done_frame(frame: FrameX) -> (ret: Result<(), TransportError>)
     ensures ret is Err && ret->Err_0.code == 0xA,
 {
-//@ splice-stmts quic/s2n-quic-transport/src/space/mod.rs - handle_handshake_done_frame "from=Err(" "subst=transport::Error=>TransportError@@Self::INVALID_FRAME_ERROR=>INVALID_FRAME_ERROR"
+//@ splice-stmts quic/s2n-quic-transport/src/space/mod.rs - handle_handshake_done_frame body=1 "subst=?transport::Error=>TransportError@@?Self::INVALID_FRAME_ERROR=>INVALID_FRAME_ERROR"
 }
 
 fn default_handle_retire_connection_id_frame(frame: FrameX) -> (ret: Result<(), TransportError>)
     ensures ret is Err && ret->Err_0.code == 0xA,
 {
-//@ splice-stmts quic/s2n-quic-transport/src/space/mod.rs - handle_retire_connection_id_frame "from=Err(" "subst=transport::Error=>TransportError@@Self::INVALID_FRAME_ERROR=>INVALID_FRAME_ERROR"
+//@ splice-stmts quic/s2n-quic-transport/src/space/mod.rs - handle_retire_connection_id_frame body=1 "subst=?transport::Error=>TransportError@@?Self::INVALID_FRAME_ERROR=>INVALID_FRAME_ERROR"
 }
 
 fn default_handle_new_connection_id_frame(frame: FrameX) -> (ret: Result<(), TransportError>)
     ensures ret is Err && ret->Err_0.code == 0xA,
 {
-//@ splice-stmts quic/s2n-quic-transport/src/space/mod.rs - handle_new_connection_id_frame "from=Err(" "subst=transport::Error=>TransportError@@Self::INVALID_FRAME_ERROR=>INVALID_FRAME_ERROR"
+//@ splice-stmts quic/s2n-quic-transport/src/space/mod.rs - handle_new_connection_id_frame body=1 "subst=?transport::Error=>TransportError@@?Self::INVALID_FRAME_ERROR=>INVALID_FRAME_ERROR"
 }
 
 fn default_handle_path_response_frame(frame: FrameX) -> (ret: Result<(), TransportError>)
     ensures ret is Err && ret->Err_0.code == 0xA,
 {
-//@ splice-stmts quic/s2n-quic-transport/src/space/mod.rs - handle_path_response_frame "from=Err(" "subst=transport::Error=>TransportError@@Self::INVALID_FRAME_ERROR=>INVALID_FRAME_ERROR"
+//@ splice-stmts quic/s2n-quic-transport/src/space/mod.rs - handle_path_response_frame body=1 "subst=?transport::Error=>TransportError@@?Self::INVALID_FRAME_ERROR=>INVALID_FRAME_ERROR"
 }
 
 fn default_handle_path_challenge_frame(frame: FrameX) -> (ret: Result<(), TransportError>)
     ensures ret is Err && ret->Err_0.code == 0xA,
 {
-//@ splice-stmts quic/s2n-quic-transport/src/space/mod.rs - handle_path_challenge_frame "from=Err(" "subst=transport::Error=>TransportError@@Self::INVALID_FRAME_ERROR=>INVALID_FRAME_ERROR"
+//@ splice-stmts quic/s2n-quic-transport/src/space/mod.rs - handle_path_challenge_frame body=1 "subst=?transport::Error=>TransportError@@?Self::INVALID_FRAME_ERROR=>INVALID_FRAME_ERROR"
 }
 
 fn default_handle_stream_frame(frame: FrameX) -> (ret: Result<(), TransportError>)
     ensures ret is Err && ret->Err_0.code == 0xA,
 {
-//@ splice-stmts quic/s2n-quic-transport/src/space/mod.rs - handle_stream_frame "from=Err(" "subst=transport::Error=>TransportError@@Self::INVALID_FRAME_ERROR=>INVALID_FRAME_ERROR"
+//@ splice-stmts quic/s2n-quic-transport/src/space/mod.rs - handle_stream_frame body=1 "subst=?transport::Error=>TransportError@@?Self::INVALID_FRAME_ERROR=>INVALID_FRAME_ERROR"
 }
 
 fn default_handle_datagram_frame(frame: FrameX) -> (ret: Result<(), TransportError>)
     ensures ret is Err && ret->Err_0.code == 0xA,
 {
-//@ splice-stmts quic/s2n-quic-transport/src/space/mod.rs - handle_datagram_frame "from=Err(" "subst=transport::Error=>TransportError@@Self::INVALID_FRAME_ERROR=>INVALID_FRAME_ERROR"
+//@ splice-stmts quic/s2n-quic-transport/src/space/mod.rs - handle_datagram_frame body=1 "subst=?transport::Error=>TransportError@@?Self::INVALID_FRAME_ERROR=>INVALID_FRAME_ERROR"
 }
 
 fn default_handle_dc_stateless_reset_tokens_frame(frame: DcFrameX) -> (ret: Result<(), TransportError>)
     ensures ret is Err && ret->Err_0.code == 0xA,
 {
-//@ splice-stmts quic/s2n-quic-transport/src/space/mod.rs - handle_dc_stateless_reset_tokens_frame "from=Err(" "subst=transport::Error=>TransportError@@Self::INVALID_FRAME_ERROR=>INVALID_FRAME_ERROR"
+//@ splice-stmts quic/s2n-quic-transport/src/space/mod.rs - handle_dc_stateless_reset_tokens_frame body=1 "subst=?transport::Error=>TransportError@@?Self::INVALID_FRAME_ERROR=>INVALID_FRAME_ERROR"
 }
 
 // the body of `macro_rules! default_frame_handler` (DataBlocked, MaxData, MaxStreamData, MaxStreams, ResetStream,
@@ -79,7 +84,7 @@ fn default_handle_dc_stateless_reset_tokens_frame(frame: DcFrameX) -> (ret: Resu
 fn default_frame_handler_macro_body(frame: FrameX) -> (ret: Result<(), TransportError>)
     ensures ret is Err && ret->Err_0.code == 0xA,
 {
-//@ splice-stmts quic/s2n-quic-transport/src/space/mod.rs - $name "from=Err(" "subst=transport::Error=>TransportError@@Self::INVALID_FRAME_ERROR=>INVALID_FRAME_ERROR"
+//@ splice-stmts quic/s2n-quic-transport/src/space/mod.rs - $name body=1 "subst=?transport::Error=>TransportError@@?Self::INVALID_FRAME_ERROR=>INVALID_FRAME_ERROR"
 }
 
 //@ absent-fn quic/s2n-quic-transport/src/space/initial.rs handle_stream_frame,handle_datagram_frame,handle_handshake_done_frame,handle_retire_connection_id_frame,handle_new_connection_id_frame,handle_path_response_frame,handle_path_challenge_frame,handle_data_blocked_frame,handle_max_data_frame,handle_max_stream_data_frame,handle_max_streams_frame,handle_reset_stream_frame,handle_stop_sending_frame,handle_stream_data_blocked_frame,handle_streams_blocked_frame,handle_new_token_frame,handle_dc_stateless_reset_tokens_frame
